@@ -125,6 +125,18 @@ def all_cases():
     for dialect in from_dialects:
         for lo, hi in itertools.combinations_with_replacement(BOUNDARY, 2):
             cases.append({"dialect": dialect, "fields": [integer_field("v", lo, hi, False)]})
+        # multi-item rules: the column must hold the overall minimum and maximum, whatever the order of the items
+        pool = [-40000, -129, -5, -1, 0, 1, 9, 255, 256, 1000, 32767, 32768, 70000, 2**31 - 1, 2**31]
+        for a, b, c, d in itertools.combinations(pool, 4):
+            if (pool.index(a) + pool.index(d)) % 3:
+                continue  # a third of the 1365 quadruples, spread over the pool
+            for items in ([(a, b), (c, d)], [(c, d), (a, b)], [(a, a), (b, c), (d, d)], [(d, d), (a, a), (b, c)]):
+                rule = ", ".join("%d" % lo if lo == hi else "%d...%d" % (lo, hi) for lo, hi in items)
+                cases.append({"dialect": dialect, "fields": [{"name": "v", "type": "Integer", "empty": False, "rule": rule, "range": [a, d]}]})
+        for rule, lo, hi in (("0, 1000...70000", 0, 70000), ("-5...0, 300...40000", -5, 40000), ("0...9, -40000...-30000", -40000, 9), ("0, 2...2147483648", 0, 2**31), ("0, 1...32768", 0, 32768)):
+            cases.append({"dialect": dialect, "fields": [{"name": "v", "type": "Integer", "empty": False, "rule": rule, "range": [lo, hi]}]})
+        for length, upper in (("0, 5...10", 10), ("1...2, 8", 8), ("8, 1...2", 8), ("0...3", 3)):
+            cases.append({"dialect": dialect, "fields": [text_field("t", length, upper, True)]})
         # integer ranges derived from a length
         for length, lo, hi in (("1", 0, 9), ("2", -9, 99), ("1...3", -99, 999), ("...5", -9999, 99999), ("2...4", -999, 9999)):
             cases.append({"dialect": dialect, "fields": [{"name": "v", "type": "Integer", "empty": True, "length": length, "range": [lo, hi]}]})
